@@ -146,6 +146,9 @@ class Script:
         sid = self.sid() if sid is None else sid
         name = r.choice(["closeStream", "deleteStream"])
         args = [Num(sid)] if (self.clean or r.chance(5, 6)) else r.choice([[], [S("x")], [Num(sid + 0.5)]])
+        if not self.clean and r.chance(1, 5):
+            # further arguments after the stream id are ignored by the protocol: the FIRST one names the stream
+            args = args + r.choice([[Num(sid + 1)], [NULL], [Num(1)], [Num(sid ^ 3), S("y")], [Num(0)]])
         self.peer(20, r.choice([0, sid]), command(name, 0, NULL, args))
 
     def media(self, sid=None):
@@ -374,6 +377,9 @@ def ack_script(rng):
         if rng.chance(1, 5):
             w = rng.choice([1, 2, 3, 5, 8, 13, 50])
             s.peer(5, 0, struct.pack(">I", hi + w))
+        if rng.chance(1, 6):
+            # a Set Peer Bandwidth (any limit type, often smaller than the window) limits OUR output; it says nothing about the window
+            s.peer(6, 0, struct.pack(">IB", rng.choice([0, 1, 2, max(1, w // 2), w, 1000]), rng.choice([0, 1, 2])))
     return "server " + " | ".join(s.ops)
 
 
